@@ -40,7 +40,7 @@ class C17Check:
     rule = ("each run = one seeded workload over halmos.processes/solve_low_level (1-3 jobs; per job: "
             "simulated duration, reply, exit code, time limit, 0-2 child processes, SIGTERM-deaf or not, "
             "spawn OSError; client tasks submitting / waiting / shutting down with wait=False|True or "
-            "via ExecutorRegistry / from a done-callback; late submit) under one seeded schedule "
+            "via ExecutorRegistry / from a done-callback / wait=True blocked while another client calls wait=False; late submit) under one seeded schedule "
             "(yield points at every thread/lock/event/future/Popen/psutil call plus optional line-level "
             "pre-emption inside processes.py and solve.py). distinct = distinct (workload-shape hash, "
             "event-log digest); non-trivial = at least 2 tasks interleaved (>=1 context switch chosen "
